@@ -7,7 +7,12 @@ target being a port and a path below it), adds and deletes others.
 From its next invocation on the viewer sees every child in exactly the collection the issued updates
 put it in — a moved child in the target only, with the values it had — and nothing that was deleted.
 
-Oracle: the children the viewer is shown per collection are the ones that follow from the issued updates."""
+The compartments that exist from the start hold a process of their own, wired upwards (`('..', '..')`: the
+environment that holds their collection): after a move it reads the `level` of the environment the
+compartment is in now.
+
+Oracle: the children the viewer is shown per collection are the ones that follow from the issued updates;
+every inner process is shown the level of the environment its compartment is in at that invocation."""
 import itertools
 
 _ids = itertools.count()
@@ -83,6 +88,18 @@ def run_impl(case):
                          'envB': {k: v['x'] for k, v in states['B'].items()}})
             return {}
 
+    inner_seen = {}
+
+    class Inner(Process):
+        name = f'movefar-inner-{next(_ids)}'
+
+        def ports_schema(self):
+            return {'own': {'x': {'_default': 0}}, 'env': {'level': {'_default': 0}}}
+
+        def next_update(self, timestep, states):
+            inner_seen.setdefault(self.parameters['tag'], []).append(states['env']['level'])
+            return {}
+
     class Mover(Process):
         name = f'movefar-mover-{next(_ids)}'
 
@@ -106,15 +123,23 @@ def run_impl(case):
 
     obs = {}
     try:
-        eng = Engine(processes={'mover': Mover({}), 'viewer': Viewer({})},
+        wiring = {'inner': {'own': (), 'env': ('..', '..')}}
+        eng = Engine(processes={'mover': Mover({}), 'viewer': Viewer({}),
+                                'envA': {'agents': {'a': {'inner': Inner({'tag': 'a'})},
+                                                    'b': {'inner': Inner({'tag': 'b'})}}},
+                                'envB': {'agents': {'c': {'inner': Inner({'tag': 'c'})}}}},
                      topology={'mover': {'envA': ('envA',), 'envB': ('envB',)},
-                               'viewer': {'A': ('envA', 'agents'), 'B': ('envB', 'agents')}},
-                     initial_state={'envA': {'agents': {'a': {'x': 1}, 'b': {'x': 2}}},
-                                    'envB': {'agents': {'c': {'x': 3}}}},
+                               'viewer': {'A': ('envA', 'agents'), 'B': ('envB', 'agents')},
+                               'envA': {'agents': {'a': dict(wiring), 'b': dict(wiring)}},
+                               'envB': {'agents': {'c': dict(wiring)}}},
+                     initial_state={'level': -1,
+                                    'envA': {'level': 100, 'agents': {'a': {'x': 1}, 'b': {'x': 2}}},
+                                    'envB': {'level': 200, 'agents': {'c': {'x': 3}}}},
                      emitter={'type': 'null'}, display_info=False, progress_bar=False)
         for _ in range(len(case['steps']) + 1):
             eng.update(1)
         obs['seen'] = seen
+        obs['inner'] = inner_seen
         w = eng.state.get_value()
         obs['final'] = {e: {k: v['x'] for k, v in w[e]['agents'].items()} for e in ('envA', 'envB')}
     except Exception as e:  # noqa
@@ -135,6 +160,19 @@ def oracle(case, impl):
         if got != w:
             fails.append(f'moved-view: at invocation {i} the viewer is shown {got}; after {case["steps"][:i]} the '
                          f'collections hold {w}')
+            break
+    level = {'envA': 100, 'envB': 200}
+    for k in ('a', 'b', 'c'):
+        exp = []
+        for w in want:
+            env = [e for e in ('envA', 'envB') if k in w[e]]
+            if not env:
+                break
+            exp.append(level[env[0]])
+        got = impl['inner'].get(k, [])
+        if got[:len(exp)] != exp[:len(got)] or len(got) < len(exp):
+            fails.append(f'moved-wiring: the process inside compartment {k} (wired to the environment two levels up) is '
+                         f'shown the levels {got}; its compartment was in environments with levels {exp}')
             break
     if impl['final'] != want[-1]:
         fails.append(f'moved-state: the hierarchy ends as {impl["final"]}, the issued updates give {want[-1]}')
